@@ -66,7 +66,9 @@ type batch struct {
 	FixedPort bool `json:"fixed_port"`
 	// Mapped (per client): the client's configuration spells the controller addresses as IPv4-mapped IPv6 (::ffff:a.b.c.d,
 	// what netip.AddrFromSlice(net.ParseIP(..)) yields) - the same endpoints as the other clients', spelled differently
-	Mapped    []bool     `json:"mapped_addresses,omitempty"`
+	Mapped []bool `json:"mapped_addresses,omitempty"`
+	// NoBindIP (per client, with AnyAddr): the bind address has the port but no IP address at all (zero netip.Addr)
+	NoBindIP  []bool     `json:"bind_without_ip,omitempty"`
 	Paths     []int      `json:"paths"` // per controller: 0 broadcast, 1 udp, 2 tcp
 	Calls     []callSpec `json:"calls"`
 	Discovery bool       `json:"discovery"`
@@ -79,7 +81,7 @@ type batch struct {
 	Debug   bool `json:"debug,omitempty"`
 }
 
-var ops = []string{"GetCardByID", "GetCardByIndex", "GetEvent", "GetTimeProfile", "GetDoorControlState", "SetDoorControlState", "GetStatus", "OpenDoor", "GetTime", "PutCard", "GetListener"}
+var ops = []string{"GetCardByID", "GetCardByIndex", "GetEvent", "GetTimeProfile", "GetDoorControlState", "SetDoorControlState", "GetStatus", "OpenDoor", "GetTime", "PutCard", "GetListener", "SetAddress"}
 
 func reply(req []byte) []byte {
 	if len(req) != 64 {
@@ -214,6 +216,12 @@ func invoke(u uhppote.IUHPPOTE, c callSpec, serial uint32) (err error, echoed st
 		want, got = "true", fmt.Sprint(ok)
 	case "GetListener":
 		_, _, err = u.GetListener(serial)
+	case "SetAddress":
+		// (the one request controllers do not answer: it takes its turn on a shared bind port like every other request and
+		// succeeds once it is sent)
+		var r *types.Result
+		r, err = u.SetAddress(serial, net.IPv4(192, 168, 1, byte(100+c.Nonce%100)), net.IPv4(255, 255, 255, 0), net.IPv4(192, 168, 1, 1))
+		want, got = "true", fmt.Sprint(r != nil && r.Succeeded)
 	}
 	if err == nil && want != got {
 		return nil, fmt.Sprintf("%s(controller %d, nonce %d) returned %q - its own request asks for %q", c.Op, serial, c.Nonce, got, want)
@@ -271,11 +279,19 @@ func runBatch(b batch, scale int) *rp.Fail {
 			}
 			return a
 		}
+		if r.Data[1] == 0x96 {
+			delayOf(r.Data)
+			return nil
+		}
 		return []farm.Action{{Delay: delayOf(r.Data), Data: reply(r.Data)}}
 	})
 	tcpHandler := func(e *farm.TCP, r farm.Received) {
 		if len(r.Data) != 64 {
 			r.Conn.Close()
+			return
+		}
+		if r.Data[1] == 0x96 {
+			delayOf(r.Data)
 			return
 		}
 		e.PlayTCP(r, []farm.Action{{Delay: delayOf(r.Data), Data: reply(r.Data)}})
@@ -327,6 +343,7 @@ func runBatch(b batch, scale int) *rp.Fail {
 		cc := cfg
 		if i < len(b.AnyAddr) && b.AnyAddr[i] {
 			cc.BindIP = [4]byte{0, 0, 0, 0}
+			cc.BindNoIP = i < len(b.NoBindIP) && b.NoBindIP[i]
 		}
 		cc.Debug = b.Debug
 		if i < len(b.Mapped) && b.Mapped[i] {
@@ -564,6 +581,7 @@ func genBatch(t *rapid.T) batch {
 	for i := 0; i < b.Clients; i++ {
 		b.AnyAddr = append(b.AnyAddr, rapid.IntRange(0, 2).Draw(t, "bind.any") == 0)
 		b.Mapped = append(b.Mapped, rapid.IntRange(0, 2).Draw(t, "mapped") == 0)
+		b.NoBindIP = append(b.NoBindIP, rapid.Bool().Draw(t, "bind.no.ip"))
 	}
 	nc := rapid.IntRange(1, 4).Draw(t, "controllers")
 	for i := 0; i < nc; i++ {
